@@ -13,9 +13,9 @@ GEN = ('static analysis of the current source: %s. Each rule instance is a neces
        '(tolerances, "for all angles") are not decided.')
 
 META = {
-    'C01': dict(text=GEN % 'closed-producer / normaliser / rotation-table rules (R12, R13, R15, R16); the transpose of a member is closed only where no SE(n) receiver is possible, also through the reaching definitions of a local list', sec='4 C01',
+    'C01': dict(text=GEN % 'closed-producer / normaliser / rotation-table rules (R12, R13, R15, R16); the transpose of a member is closed only where no SE(n) receiver is possible, also through the reaching definitions of a local list; a copy that keeps the dtype of one operand does not receive a product with another (R11c)', sec='4 C01',
                 tech='AST term-table matching, must-pass-through (normaliser) dataflow, closed-producer rule at unchecked constructor sites'),
-    'C02': dict(text=GEN % 'operand order of composition lambdas, division = product with inverse, structured-inverse tables, power/prod folds, information dependence of the logarithm used by twist composition, no hidden state in the classes involved (R15, R16, R17, R7, R9)', sec='4 C02',
+    'C02': dict(text=GEN % 'operand order of composition lambdas, division = product with inverse, structured-inverse tables, power/prod folds, information dependence of the logarithm used by twist composition, no hidden state in the classes involved (R15, R16, R17, R7, R9); a sum arm of the twist product needs commutation, which the angular parts alone do not decide', sec='4 C02',
                 tech='AST term/word normalisation against mathematical tables, abstract interpretation of operator dispatch'),
     'C03': dict(text='static analysis of the structural core of the property only: abstract dispatch of every documented argument form of the Exp constructors to the whole-argument or per-element route; the general branch of the SO(3) logarithm composed with Rodrigues\' formula is the identity term by term; twist=True/False result pairs are vee/hat of each other; series terms of Ginv; closed forms of rodrigues/trexp/trexp2; half-turn axis depends on off-diagonals; routing with options; the division by sin(theta) lies behind a test of the divisor itself and behind the half-turn test (the identity test does not exclude acos(..) == 0: this found nan logarithms below 1e-8 rad); the planar logarithm is the closed form (atan2 through the writer table of rot2, theta V^-1 t divided by theta only under a test of theta) and never a general matrix logarithm (complex at a half turn: found and repaired); block tables of rt2tr/Ab2M/r2t/t2r/tr2rt. NOT decided: the accuracy statements as numbers (thresholds, 1e-7 agreement).', sec='5',
                 tech='abstract interpretation of argument-form guards, writer/reader composition over polynomial normal forms, term tables, information-dependence rule'),
@@ -31,7 +31,7 @@ META = {
                 tech='abstract interpretation of operator dispatch (MRO, reflected methods, three-valued isinstance) over class kinds; exhaustive table'),
     'C09': dict(text=GEN % 'four-case broadcasting structure of the two helpers, every vectorised operator reaches a helper, length guards and element kinds in per-value accessors, branch agreement, accessor slot table, element slices per concrete class, results built from the values of the receiver, two-operand zip under a length-equality fact (R8z), specialised arms of an operator compute the element operation of its general arm (R8f), list-valued accessors as truth values only under len(self) == 1 (R8t), comparison/arithmetic operators return the helper result, helper calls receive (left, right) in order (R7o), unit conversion reaches scalar and vector motion parameters alike (R10u) (R7, R8)', sec='4 C09',
                 tech='guard-fact (must) dataflow on the CFG, element-kind abstract domain, call-graph reachability'),
-    'C10': dict(text='static analysis: list equivalence by delegation -- index/slice delegate to list or slice.indices, class-equality and single-value guards dominate every list mutation, no list primitive overridden below UserList, Empty/Alloc/pop shapes; with CPython list/UserList trusted this implies equality with a Python list for every operation history.', sec='4 C10',
+    'C10': dict(text='static analysis: list equivalence by delegation -- index/slice delegate to list or slice.indices, class-equality and single-value guards dominate every list mutation, no list primitive overridden below UserList, Empty/Alloc/pop shapes; with CPython list/UserList trusted this implies equality with a Python list for every operation history.; an object never binds its element list to the element list of another object (container freshness)', sec='4 C10',
                 tech='dominance (must-fact) analysis of guards before mutations, who-defines check over the MRO, delegation patterns'),
     'C11': dict(text=GEN % 'range guard on every value path, routing, shortest-arc block ordering, endpoint returns, norm-preserving return forms, linear translation form, the shortest test on every path to the angle, shape typestate of the branches (R14, R16, R20, R2)', sec='4 C11',
                 tech='must-pass-through and ordering analysis on the CFG, return-form classification'),
@@ -41,7 +41,7 @@ META = {
                 tech='term tables, group-word abstract evaluation (inverse/transposition/product order)'),
     'C14': dict(text=GEN % 'normaliser forms and selectors, every stacked column normalised after the cross products, planar frame table of trnorm2, definitions of the zero/unit predicates the selectors branch on, routing of norm()/unit (R16, R13, R4, R1)', sec='4 C14',
                 tech='return-form classification, must-pass-through (unitvec) on constructed columns'),
-    'C15': dict(text=GEN % 'normaliser dominance for every array_like parameter (a raw argument as the return value included), dimension enforced, the contract of the normaliser root getvector itself (conversion dtype, default, length test before every return: R10g), unit/order option threading with single conversion, sibling arms forward the same options (R10c), None-belief (R10m), else-raise, no unconstrained-length vector reaches a broadcasting slice store (R10, R2, R3)', sec='4 C15',
+    'C15': dict(text=GEN % 'normaliser dominance for every array_like parameter (a raw argument as the return value included), dimension enforced, the contract of the normaliser root getvector itself (conversion dtype, default, length test before every return: R10g), unit/order option threading with single conversion, sibling arms forward the same options (R10c), None-belief (R10m), else-raise, no unconstrained-length vector reaches a broadcasting slice store (R10, R2, R3); after the getunit conversion no branch on the unit option computes anything (R10v), also for a unit forwarded positionally', sec='4 C15',
                 tech='taint/must-pass-through dataflow from documented array_like parameters, option-threading and double-conversion analysis'),
     'C16': dict(text=GEN % 'no numeric-only primitive on symbol-tainted values in SymPy-marked call trees; object-dtype-aware conversion in the vector normaliser; a vectorize kernel returns one kind on every path reachable with SymPy available (R11v); shared SO/SE methods treat elements uniformly; closed-form determinant equals the Leibniz expansion (R11, R18, R16)', sec='4 C16',
                 tech='interprocedural taint analysis from :SymPy: supported marks to numeric-only sinks'),
@@ -49,7 +49,7 @@ META = {
                 tech='interprocedural may-alias / effect (purity) dataflow analysis'),
     'C18': dict(text=GEN % 'twist constructor/accessor tables, unit conversion reaches every use of theta in exp, element slices of the prismatic/revolute/unit predicates per concrete class, those list-valued predicates used as a truth value only under len(self) == 1 (R8t), definitions of the zero/unit predicates, reflected scalar product (R16, R10, R6, R8, R4)', sec='4 C18',
                 tech='term tables, must-pass-through (getunit) dataflow, operator table'),
-    'C19': dict(text=GEN % 'one moment convention and one plane convention across writers and readers, sign-invariance of the parallelism test, point/column branch agreement with the caller tolerance, line-plane intersection point and parameter and line-line distance composed with the class conventions in component-wise vector algebra, no hidden state (R16, R23, R10r, R9)', sec='4 C19',
+    'C19': dict(text=GEN % 'one moment convention and one plane convention across writers and readers, sign-invariance of the parallelism test, point/column branch agreement with the caller tolerance, line-plane intersection point and parameter and line-line distance composed with the class conventions in component-wise vector algebra, no hidden state (R16, R23, R10r, R9); the layout of a point array is not chosen from one dimension (R20t)', sec='4 C19',
                 tech='term tables with sign (parity) analysis under negation of an operand'),
     'C20': dict(text=GEN % 'typed guards dominate the arithmetic, cross/adjoint/inertia tables, constructor form tests on the raw argument, no hidden state in the pose/twist classes whose adjoint is applied (R16, R7, R9)', sec='4 C20',
                 tech='guard dominance, literal 6x6 table comparison, operator table'),
